@@ -1778,9 +1778,10 @@ size_t rtosc_scan_arg_val(const char* src,
                 *buffer_for_strings = 0;
                 ++buffer_for_strings;
             }
-            // "YYYY-" => it's a date
-            else if(src[0] && src[1] && src[2] && src[3] && src[4] == '-')
+            // "YYYY-MM-DD" => it's a date (same test as the syntax checker)
+            else if(sscanf(src, "%*4d-%*1d%*1d-%*1d%*1d%n", &rd), rd)
             {
+                rd = 0;
                 arg->val.t = 0;
 
                 struct tm m_tm;
